@@ -138,7 +138,17 @@ AnyV(t)   == C(t, "any:")
 BadElems == {"lit:[1.5,null]"}
 \* (NotAllStr / NotAllObj: list literals some element of which is not a
 \* string / not an object; steps that walk a list may refuse those.)
-OddStrs  == "lit:[\"\",\"#c\",\"[/x/\",\"[/x/]quic://8.8.8.8\",\"quic://[::1\",\"quic://a:b:c\",\"://\",\"quic://\"]"
+\* Degenerate strings for the places where a step looks INTO a string
+\* (upstream entries at step 10, the address at 23, ip / mac at 6, the
+\* password at 5, the filter URL at 29, the ignored hosts at 27).  They are
+\* named, not spelled: the harness owns the spelling ("deg:tab" is a tab,
+\* "deglist:" the list of about thirty such strings: empty, blanks, tab,
+\* "#", indented comments, "[", "[/", "[//]", "[/x/]", "://", "quic://"
+\* without host, padded upstreams, ...).  Nothing in the spec depends on
+\* their content except that none of them is an IP address.
+DegKinds == {"blank", "tab", "hash", "lbr", "lbrs", "lbrss", "scheme", "quicnohost", "padded"}
+DegLit   == [k \in DegKinds |-> "deg:" \o k]
+OddStrs  == "deglist:"
 DotList  == "lit:[\".\",\"a\",1.5]"
 \* Lists of records with elements of different shapes.  The three filter
 \* records (URL, absolute path, no URL) come in all six orders; users,
@@ -424,7 +434,7 @@ S22(d) == WithSec(d, "clients", LAMBDA x :
 
 \* Strings the spec knows not to be IP addresses (step 23 fails on them).
 \* (all the strings of the deviation vocabulary that are not addresses)
-NotIP == {ZS, "lit:\"zz\"", "lit:\"127.0.0.1:80\"", LongStr}
+NotIP == {ZS, "lit:\"zz\"", "lit:\"127.0.0.1:80\"", LongStr} \cup {DegLit[k] : k \in DegKinds}
 S23(d) == UNION {CASE h.k = "err" -> {ErrO}
                    [] h.k = "no" -> {Ok(d)}
                    [] OTHER ->
@@ -608,14 +618,16 @@ DevKinds(v, k) ==
            \* converts or multiplies, strings a step parses or hashes, lists a
            \* step walks
            \cup (IF c.t = "int" /\ k \in ConcFrom[v] THEN {"neg", "p65535", "p65536", "huge"} ELSE {})
-           \cup (IF c.t = "str" /\ k \in ConcFrom[v] THEN {"estr"} ELSE {})
+           \cup (IF c.t = "str" /\ k \in ConcFrom[v] THEN {"estr", "blank"} ELSE {})
+           \cup (IF c.t = "str" /\ k \in ConcFrom[v]
+                     /\ k \in {"bind_host", "auth_pass", "auth_name", "cl0.ip", "cl0.mac", "fl0.url"}
+                   THEN DegKinds ELSE {})
            \cup (IF k = "bind_host" THEN {"str", "v6", "hostport"} ELSE {})
            \cup (IF k = "auth_pass" THEN {"long"} ELSE {})
            \cup (IF k \in RecKeys(v) THEN {"recs"} ELSE {})
            \cup (IF k = "filters" THEN DOMAIN Perms ELSE {})
            \cup (IF c.t = "list" /\ k \in ConcFrom[v]
-                   THEN {"badelem"} ELSE {})
-           \cup (IF k \in {"dns.upstream_dns", "dns.local_ptr_upstreams"} THEN {"oddstrs"} ELSE {})
+                   THEN {"badelem", "oddstrs"} ELSE {})
            \cup (IF k \in {"querylog.ignored", "statistics.ignored"} THEN {"dotlist"} ELSE {})
            \cup (IF c.v = "sec" THEN {"empty"} ELSE {})
            \cup (IF c.t = "list" THEN {"emptylist"} ELSE {})
@@ -647,6 +659,7 @@ DevCell(k, c, kind) ==
       [] kind = "p65536" -> C("int", "lit:65536")
       [] kind = "huge" -> C("int", Huge)
       [] kind = "estr" -> C("str", ZS)
+      [] kind \in DegKinds -> C("str", DegLit[kind])
       [] kind = "v6" -> C("str", "lit:\"::1\"")
       [] kind = "hostport" -> C("str", "lit:\"127.0.0.1:80\"")
       [] kind = "long" -> C("str", LongStr)
